@@ -17,17 +17,19 @@ import (
 func nilResultsOnlyWithErrors(p *Prog, r *Report, rule string, fns []*ssa.Function) {
 	n := 0
 	for _, fn := range fns {
-		vi := verdictIndex(fn)
-		if vi < 0 {
-			continue
-		}
+		vi := verdictIndex(fn) // -1: no verdict, every return counts
 		res := fn.Signature.Results()
 		for i := 0; i < res.Len(); i++ {
 			if i == vi {
 				continue
 			}
-			if _, isPtr := res.At(i).Type().Underlying().(*types.Pointer); !isPtr {
+			_, isPtr := res.At(i).Type().Underlying().(*types.Pointer)
+			_, isIface := res.At(i).Type().Underlying().(*types.Interface)
+			if !isPtr && !(isIface && !isErrorType(res.At(i).Type())) {
 				continue
+			}
+			if vi < 0 && !isIface {
+				continue // a bare pointer result without verdict: nil is the caller's to check (not decided)
 			}
 			n++
 			sn := shortName(fn)
@@ -69,7 +71,7 @@ func nilResultsOnlyWithErrors(p *Prog, r *Report, rule string, fns []*ssa.Functi
 				}
 			}
 			if bad != "" {
-				r.Fail(rule, key, bad, fmt.Sprintf("returns a nil %s on a return not classified as a failure (verdict may report success), and the caller at %s dereferences it after checking the verdict only: nil dereference on the input that takes this path", types.TypeString(res.At(i).Type(), nil), deref))
+				r.Fail(rule, key, bad, fmt.Sprintf("returns a nil %s on a return not classified as a failure, and the caller at %s dereferences it (field, load, method call, unchecked assertion) without ever comparing it with nil: nil dereference on the input that takes this path", types.TypeString(res.At(i).Type(), nil), deref))
 			} else {
 				r.OK(rule, key, p.Pos(fn.Pos()), "nil pointer returned only together with a failure verdict; dereferenced at "+deref)
 			}
@@ -110,7 +112,14 @@ func unguardedDerefD(v ssa.Value, depth int) ssa.Instruction {
 			if x.X == v {
 				found = x
 			}
+		case *ssa.TypeAssert:
+			if x.X == v && !x.CommaOk {
+				found = x
+			}
 		case *ssa.Call:
+			if x.Call.IsInvoke() && x.Call.Value == v {
+				found = x // method call on a nil interface panics
+			}
 			if f := x.Call.StaticCallee(); f != nil && InModule(f) && f.Signature.Recv() != nil && len(x.Call.Args) > 0 && x.Call.Args[0] == v && f.Blocks != nil && len(f.Params) > 0 {
 				if unguardedDerefD(f.Params[0], depth+1) != nil {
 					found = x
